@@ -82,7 +82,8 @@ def astigmatic_foci(P, D, surfaces, zv, n_abs, obj_infinite):
     P, D     : arrays (K+1, N, 3): point of incidence on surface k and unit direction AFTER surface k
                (row 0 = launch record: object point / launch plane and launch direction), N chief rays
                lying in the y-z plane.
-    surfaces : spec dicts of surfaces 1..K (the last one is the image surface; it has no power here).
+    surfaces : spec dicts of surfaces 1..K (the last one is the image surface; when the medium changes there it
+               refracts like any other surface and the foci are those of the pencil AFTER it).
     zv       : z of vertices 1..K (len K).
     n_abs    : unsigned refractive index after surface 0..K (len K+1); medium 'mirror' is detected
                from the spec.
@@ -105,7 +106,7 @@ def astigmatic_foci(P, D, surfaces, zv, n_abs, obj_infinite):
         inv_t = -1.0 / d0                         # object point lies BEHIND the first point of incidence
         inv_s = -1.0 / d0
     max_off = 0.0
-    for k in range(1, K):
+    for k in range(1, K + 1):
         s = surfaces[k - 1]
         pl = P[k] - np.array([0.0, 0.0, zv[k - 1]])
         max_off = max(max_off, float(np.max(np.abs(pl[:, 0]))))
@@ -122,12 +123,13 @@ def astigmatic_foci(P, D, surfaces, zv, n_abs, obj_infinite):
         with np.errstate(all='ignore'):
             inv_t = (n1 * cosi ** 2 * inv_t + pw * ct) / (n2 * cosr ** 2)
             inv_s = (n1 * inv_s + pw * cs) / n2
-            # transfer along the ray to the next surface
-            d = np.linalg.norm(P[k + 1] - P[k], axis=1)
-            inv_t = inv_t / (1.0 - sigma2 * d * inv_t)
-            inv_s = inv_s / (1.0 - sigma2 * d * inv_s)
+            if k < K:
+                # transfer along the ray to the next surface
+                d = np.linalg.norm(P[k + 1] - P[k], axis=1)
+                inv_t = inv_t / (1.0 - sigma2 * d * inv_t)
+                inv_s = inv_s / (1.0 - sigma2 * d * inv_s)
         sigma = sigma2
     with np.errstate(all='ignore'):
-        dz_t = sigma * D[K - 1][:, 2] / inv_t
-        dz_s = sigma * D[K - 1][:, 2] / inv_s
+        dz_t = sigma * D[K][:, 2] / inv_t
+        dz_s = sigma * D[K][:, 2] / inv_s
     return dz_t, dz_s, dict(max_sagittal_offset=max_off)
